@@ -198,6 +198,11 @@ pub fn minimise(
                 progress |= try_it(c, &mut cur, budget);
             }
             for i in 0..cur.recorder.extras.unknown.len() {
+                if cur.recorder.extras.unknown[i].split {
+                    let mut c = cur.clone();
+                    c.recorder.extras.unknown[i].split = false;
+                    progress |= try_it(c, &mut cur, budget);
+                }
                 if cur.recorder.extras.unknown[i].after.len() > 1 {
                     let mut c = cur.clone();
                     c.recorder.extras.unknown[i].after.truncate(1);
